@@ -185,6 +185,9 @@ def cfgs():
     # timeouts that are not whole seconds
     out.append({"pool_idle_timeout": 2.5})
     out.append({"pool_idle_timeout": 0.5, "max_pool_size": 1})
+    # client_class set to a Client subclass whose instances are falsy
+    out.append({"pool_idle_timeout": 5, "harness_client_class": "falsy"})
+    out.append({"pool_idle_timeout": 0, "max_pool_size": 2, "harness_client_class": "falsy"})
     return out
 
 
@@ -213,13 +216,18 @@ def systematic(res, cfg, label, op, tier, rng):
 
 def gap_grid(res, cfg, rng):
     T = cfg.get("pool_idle_timeout", 0)
-    gaps = ([0, 4, 5, 6, 50] if T == 5 else [0, T - 0.125, T, T + 0.125, int(T) + 1, 20 * T]) if T else [0, 1, 1000]
+    # (a negative gap: the wall clock was stepped back between two calls - the connection has then been idle for less than
+    #  the timeout, whatever the arithmetic says)
+    gaps = ([0, 4, 5, 6, 50, -3] if T == 5 else [0, T - 0.125, T, T + 0.125, int(T) + 1, 20 * T, -1.5]) if T else [0, 1, 1000, -2]
     opsel = [("get", ("h1",), {}), ("set", ("k", b"v"), {"noreply": False}), ("set", ("k", b"v"), {"noreply": True}),
              ("get_many", (["h1", "h2"],), {})]
     for g1 in gaps:
         for g2 in gaps:
             for a in range(len(opsel)):
                 ops = [opsel[a], ("advance", (g1,), {}), opsel[(a + 1) % 4], ("advance", (g2,), {}), opsel[(a + 2) % 4]]
+                if (a + len(gaps) + gaps.index(g1)) % 3 == 0:
+                    # the middle call is made while the caller handles an exception of its own
+                    ops[2] = ops[2] + ({"in_except": True},)
                 case = {"stack": "pooled", "servers": [("mc1", 11211)], "cfg": cfg, "ops": ops, "faulted": 0, "faults": {},
                         "seg": ("whole",), "advance": 0}
                 o = execute(case)
@@ -258,6 +266,8 @@ def random_history(res, rng, tier):
                 ops.append(("advance", (g,), {}))
                 gaps.append(g)
         idx = len(ops)
+        if rng.random() < 0.15:
+            op = tuple(op[:3]) + ({"in_except": True},)
         ops.append(op)
         if rng.random() < 0.4:
             typ = rng.choice([fakenet.T_CONNECT, fakenet.T_SENDALL, fakenet.T_RECV, fakenet.T_RECV, fakenet.T_SETTIMEOUT,
